@@ -1,6 +1,7 @@
 package checks
 
 import (
+	"sort"
 	"bytes"
 	"encoding/asn1"
 	"fmt"
@@ -86,8 +87,33 @@ func C14(c *core.Ctx) {
 	c.Assume("value-preserving changes are outside: leading zero octets of a scalar, and an emptied SmSsc when the captured counter is 2 (documented legacy default)")
 	c.Assume("byte changes in EF.SOD / EF.CardSecurity are judged by C01 (facts-based); here data groups and the files with an attached verdict are mutated")
 
-	r := c.MustTLC(core.TLCOpts{Module: "MC_Evidence", Cfg: "MC_Evidence.cfg", Workers: 2})
-	_ = r
+	// expected offline verdict vector of every (live evidence set, live PA verdict, tamper) of Evidence.tla's state machine
+	type expVec struct{ pa, aa, cam, ca string }
+	expect := map[string]expVec{}
+	setKey := func(ms []string) string { sort.Strings(ms); return strings.Join(ms, "+") }
+	c.MustTLC(core.TLCOpts{Module: "MC_Evidence", Cfg: "MC_Evidence.cfg", Workers: 2, OnLine: func(line string) {
+		if !strings.HasPrefix(line, "<<\"V\"") {
+			return
+		}
+		v, err := core.ParseTLA(line)
+		if err != nil {
+			core.Infra("C14: %v", err)
+		}
+		t := v.([]any)
+		var ms []string
+		for _, m := range t[1].(core.Set) {
+			ms = append(ms, core.Str(m))
+		}
+		var tk []string
+		for _, x := range t[3].([]any) {
+			tk = append(tk, core.Str(x))
+		}
+		o := t[4].(map[string]any)
+		expect[setKey(ms)+"|"+core.Str(t[2])+"|"+strings.Join(tk, "/")] = expVec{core.Str(o["pa"]), core.Str(o["aa"]), core.Str(o["cam"]), core.Str(o["ca"])}
+	}})
+	if len(expect) < 100 {
+		core.Infra("C14: only %d rows in the Evidence.tla table", len(expect))
+	}
 
 	type mech struct {
 		name string
@@ -322,6 +348,8 @@ func C14(c *core.Ctx) {
 		skip    string
 		verdict string
 		err     string
+		vec     verdictVec5
+		whole   bool // the export was rejected as a whole (no vector)
 	}
 	results := make([]tres, len(cases))
 	core.ParallelFor(len(cases), func(i int) {
@@ -340,9 +368,11 @@ func C14(c *core.Ctx) {
 		off := offlineVerify(blob, l.trust, nil)
 		if off.err != "" || off.docEx == nil {
 			results[i].verdict, results[i].err = "failed", off.err // rejected as a whole
+			results[i].whole = true
 			return
 		}
 		v := vecOf(&off.docEx.Session)
+		results[i].vec = v
 		switch tc.mechanism {
 		case "aa":
 			results[i].verdict = v.Aa
@@ -362,6 +392,41 @@ func C14(c *core.Ctx) {
 		if r.skip != "" {
 			skipped++
 			continue
+		}
+		// the whole vector against Evidence.tla: a changed field of one mechanism leaves every OTHER verdict as it was live
+		if !r.whole && tc.mechanism != "pa" {
+			lv := vecOf(&l.a.docEx.Session)
+			var ms []string
+			for m, vd := range map[string]string{"aa": lv.Aa, "cam": lv.Cam, "ca": lv.Ca} {
+				if vd == "ok" {
+					ms = append(ms, m)
+				}
+			}
+			livePa := "failed"
+			if lv.Pa == "ok" {
+				livePa = "ok"
+			}
+			if e, ok := expect[setKey(ms)+"|"+livePa+"|field/"+tc.mechanism+"/"+tc.field]; !ok {
+				core.Infra("C14: Evidence.tla has no row for live=%v pa=%s field %s.%s", ms, livePa, tc.mechanism, tc.field)
+			} else {
+				got := expVec{r.vec.Pa, r.vec.Aa, r.vec.Cam, r.vec.Ca}
+				if got.pa != "ok" {
+					got.pa = "failed"
+				}
+				// the tampered mechanism itself is judged below (a rejected record may also read "absent")
+				switch tc.mechanism {
+				case "aa":
+					got.aa, e.aa = "", ""
+				case "cam":
+					got.cam, e.cam = "", ""
+				case "ca":
+					got.ca, e.ca = "", ""
+				}
+				if got != e {
+					c.Violation(fmt.Sprintf("C14:%s-%s-tamper-changes-other-verdicts", tc.mechanism, tc.field), fmt.Sprintf("changing %s.%s (%s) changed verdicts of other steps: offline %+v, Evidence.tla expects %+v (%s)", tc.mechanism, tc.field, tc.kind, got, e, l.m.name),
+						map[string]any{"mechanism": tc.mechanism, "field": tc.field, "kind": tc.kind, "config": l.m.cfg})
+				}
+			}
 		}
 		if r.verdict == "ok" {
 			c.Violation(fmt.Sprintf("C14:%s-%s-tamper-undetected", tc.mechanism, tc.field), fmt.Sprintf("changing %s.%s (%s) left the %s verdict positive (%s)", tc.mechanism, tc.field, tc.kind, tc.mechanism, l.m.name),
